@@ -9,7 +9,7 @@ SPEC = dict(
          'payloads), 3 publications files (test PKI). A single case (s:) is one base x one tree position (every node of the TLV tree, expanded wherever the reference schema says the element is a '
          'container) x one operator: delete, duplicate, duplicate with the N flag, swap with next sibling, move first / last, retag to every other tag of the '
          'container alphabet and to an unknown tag, each other (N,F) flag combination, shrink / grow the payload by one byte, insert an unknown element '
-         '(critical / non-critical / non-critical+forward) before and (non-critical) after it, add a valid sample of every element of the container alphabet after it '
+         '(critical / critical+forward / non-critical / non-critical+forward) before and (non-critical) after it, add a valid sample of every element of the container alphabet after it '
          '(schema-aware construction: combines exclusive alternatives, repeats single-valued elements with other content, breaks section order), and per value type: integers (leading zero, 00, 9 bytes, empty, '
          '8 bytes), strings (no terminator, embedded NUL, lone continuation, lead without / with too few continuations, lead followed by ASCII, ff, fe, valid 2/3/4 byte '
          'forms, overlong, f5 lead, zero length, empty), imprints (algorithm 03 / 06 / 0c / 7e / ff, length -1 / +1, empty, algorithm byte only, other valid algorithms), '
